@@ -33,6 +33,8 @@ var c06refs = []c06ref{
 	{"svc-field-svc", "service", `"svcFieldS"`, "uTen", "goneTen"},
 	{"dec-svc", "service", `decorator(#1`, "uEleven", "goneEleven"},
 	{"svc-wither-multi-param", "param", `"@svcWither"`, "tTwelve", "nopeTwelve"},
+	{"param-after-function", "param", `"%pAfterFn%"`, "tThirteen", "nopeThirteen"},
+	{"svc-arg-after-function", "param", `"@svcAfterFn"`, "tFourteen", "nopeFourteen"},
 }
 
 func c06build(dangling uint, variant int) *Cfg {
@@ -67,6 +69,7 @@ func c06build(dangling uint, variant int) *Cfg {
 		Param{"pSingle", "%" + name(0) + "%"},
 		Param{"pMulti", "a-%" + name(1) + "%-b"},
 		Param{"pAfterPct", "%%%" + name(2) + "%"},
+		Param{"pAfterFn", `%env("C06_HOST", "localhost")%:%` + name(12) + "%"},
 	)
 	c.Services = append(c.Services,
 		Service{Name: "svcCtor", Constructor: P("NewThing"), Args: []any{1, "%" + name(3) + "%"}},
@@ -76,6 +79,7 @@ func c06build(dangling uint, variant int) *Cfg {
 		Service{Name: "svcCallS", Constructor: P("NewThing"), Calls: []Call{{Method: "Set", Args: []any{true, "@" + name(8)}}}},
 		Service{Name: "svcFieldS", Value: P("Thing{}"), Fields: []KV{{"Fb", "@" + name(9)}}},
 		Service{Name: "svcWither", Constructor: P("NewThing"), Calls: []Call{{Method: "With", Args: []any{"x%%%" + name(11) + "%:%tOne%"}, Immutable: P(true)}}},
+		Service{Name: "svcAfterFn", Constructor: P("NewThing"), Args: []any{`%todo("x")%%envInt("C06_PORT", 1)%-%` + name(13) + `%`}},
 		Service{Name: "carrier", Constructor: P("NewThing"), Tags: []Tag{{Name: "tagA"}, {Name: "tagB"}}},
 	)
 	c.Decorators = []Decorator{
@@ -89,7 +93,7 @@ func init() {
 	Register(&Check{
 		ID:    "C06",
 		Level: "exploration",
-		Rule: "every subset of the 12 reference positions (param->param single chunk / multi-chunk / after %%; service ctor, call, field, wither multi-chunk -> param; decorator -> param; service ctor, call, field -> service; decorator -> service) made dangling, x 3 declared-ness variants of the targets (literal / %todo()% + todo:true / %todo(\"msg\")%); " +
+		Rule: "every subset of the 14 reference positions (param->param single chunk / multi-chunk / after %%; service ctor, call, field, wither multi-chunk -> param; a reference after a function chunk in a parameter and in a service argument; decorator -> param; service ctor, call, field -> service; decorator -> service) made dangling, x 3 declared-ness variants of the targets (literal / %todo()% + todo:true / %todo(\"msg\")%); " +
 			"non-trivial = at least one reference dangling; distinct = distinct (subset, variant)",
 		Assumptions: []string{
 			"diagnostics are matched by content: rule prefix (output.ValidateParamsExist / output.ValidateServicesExist), the referrer token and the quoted missing name; multiplicity is not compared",
@@ -128,8 +132,8 @@ func init() {
 					}
 					lines := ErrorLines(br.Out)
 					for i, r := range c06refs {
-						if full&(1<<uint(i)) == 0 || i < 3 {
-							continue
+						if full&(1<<uint(i)) == 0 || strings.HasPrefix(r.referrer, `"%`) {
+							continue // the referrers that are parameters themselves do not exist in this variant
 						}
 						prefix := "output.ValidateParamsExist:"
 						if r.kind == "service" {
